@@ -61,26 +61,43 @@ def upsertRow (cur : Option AcctRow) (fu : Option Int) (date : Int) (md : Metada
                updatedAt := date, metadata := m', revisions := r.revisions ++ [(date, m')] }
     else r
 
+/-- Which `DeleteAccountMetadata`:
+    `current` — the code in the tree (fix 2c0d233): `UPDATE accounts SET metadata = metadata - key,
+    updated_at = transaction_date()`, so the history trigger stamps the new revision with the date
+    of the delete;
+    `preFix` — before it: `updated_at` was not touched, so the trigger stamped the post-delete
+    revision with the date of the PREVIOUS write (and `updated_at` never reflected deletes). -/
+inductive DeleteVariant where
+  | preFix
+  | current
+  deriving DecidableEq, Repr, Inhabited
+
 /-- One journal event seen by the `accounts` row of `a`. -/
-def acctStep (a : String) (cur : Option AcctRow) : Event → Option AcctRow
+def acctStepV (dv : DeleteVariant) (a : String) (cur : Option AcctRow) : Event → Option AcctRow
   | .committed t am up =>
     if up && (t.involves a || am.contains a) then
       some (upsertRow cur (some t.timestamp) t.insertedAt ((am.get? a).getD []))
     else cur
   | .metaWrite { target := .account a', date := d, change := .save md } =>
     if a' = a then some (upsertRow cur none d md) else cur
-  | .metaWrite { target := .account a', date := _, change := .delete key } =>
+  | .metaWrite { target := .account a', date := d, change := .delete key } =>
     if a' = a then
       match cur with
       | none => none
-      -- `UPDATE accounts SET metadata = metadata - key`: `updated_at` is NOT touched, so the
-      -- history trigger stamps the new revision with the date of the PREVIOUS write
-      | some r => some { r with metadata := r.metadata.erase key,
-                                revisions := r.revisions ++ [(r.updatedAt, r.metadata.erase key)] }
+      | some r =>
+        let date := match dv with | .current => d | .preFix => r.updatedAt
+        some { r with metadata := r.metadata.erase key, updatedAt := date,
+                      revisions := r.revisions ++ [(date, r.metadata.erase key)] }
     else cur
   | _ => cur
 
-def acctRowOf (l : Ledger) (a : String) : Option AcctRow := l.events.foldl (acctStep a) none
+def acctRowOfV (dv : DeleteVariant) (l : Ledger) (a : String) : Option AcctRow :=
+  l.events.foldl (acctStepV dv a) none
+
+/-- The code in the tree. -/
+def acctStep (a : String) (cur : Option AcctRow) (e : Event) : Option AcctRow := acctStepV .current a cur e
+
+def acctRowOf (l : Ledger) (a : String) : Option AcctRow := acctRowOfV .current l a
 
 /-- `updated_at` and the metadata revisions of a transaction. -/
 structure TxRow where
